@@ -1,4 +1,5 @@
 import Vata.Generated.Tables
+import Vata.CacheModel
 /-! # Proof obligations over the regenerated cache wiring (kept in a module of its own so that a failure is reported for these
 theorems only) -/
 namespace Vata.CacheWiring
@@ -22,5 +23,22 @@ theorem cache_wiring_sites :
     cacheWiring.all (fun w => w.2.1.any (fun t => t.1 == "lteCache" && t.2 == [0, 1])) = true := by decide
 
 theorem cache_wiring_complete : cacheWiring.all wiringOk = true := by decide
+
+/-! ## Link to the cache model (`Vata/CacheModel.lean`, `Vata/Proofs/CacheModel.lean`)
+
+`Vata.CM.Wiring` is the deleter of the model: `.lib` purges both key positions of the comparison memo (and the second
+position of the evaluation memo), `.firstTwice` is the one-word slip, `.none` the default deleter.  The deleter lambdas
+as they are written in the sources now denote `.lib` at every site – the hypothesis `c.wiring = .lib` of
+`Util_Cache_memo_sound` (memo soundness under address reuse; `Util_Cache_wiring_counterexample` shows a stale answer for
+the other two). -/
+
+/-- the wiring a regenerated deleter denotes -/
+def wiringOf (w : String × List (String × List Nat) × List (String × Nat) × Nat) : Vata.CM.Wiring :=
+  let calls := w.2.2.1
+  if w.2.1.all (fun t => t.2.all (fun k => calls.contains (t.1, k))) then .lib
+  else if calls.isEmpty then .none
+  else .firstTwice
+
+theorem cache_wiring_is_lib : cacheWiring.map wiringOf = [.lib, .lib, .lib] := by decide
 
 end Vata.CacheWiring
